@@ -272,6 +272,140 @@ def framing_stage(ctx: vlib.Ctx, exe: str | None) -> None:
     ctx.sample({"framing": lines[-1][:120], "impl": impl_out[-1][:120]})
 
 
+# =========================================================================================== client side
+
+def client_stage(ctx: vlib.Ctx, exe: str | None) -> None:
+    """The real dmypy client exchange (mypy/dmypy/client.py request(): IPCClient, send, receive until
+    final) against a scripted peer on a real AF_UNIX socket that answers with reply streams (WriteToConn
+    stdout/stderr frames + final response) cut at chosen places; also checks the request frame the
+    client writes.  The result must not depend on the segmentation (which is why pacing the writes
+    with short sleeps cannot make the outcome flaky)."""
+    import contextlib
+    import io
+    import queue
+    import threading
+    from mypy.dmypy.client import request
+    rng = vlib.Rng(ctx.seed, "client")
+    d = tempfile.mkdtemp(prefix="verif-c16-cl-")
+    try:
+        path = os.path.join(d, "peer.sock")
+        ls = socket.socket(socket.AF_UNIX)
+        ls.bind(path)
+        ls.listen(4)
+        status_file = os.path.join(d, "status.json")
+        with open(status_file, "w") as f:
+            json.dump({"pid": os.getpid(), "connection_name": path}, f)
+        q: "queue.Queue[list[bytes] | None]" = queue.Queue()
+        got_requests: list[bytes] = []
+        peer_errors: list[str] = []
+
+        def peer() -> None:
+            while True:
+                item = q.get()
+                if item is None:
+                    return
+                conn, _ = ls.accept()
+                conn.settimeout(20)
+                buf = b""
+                try:
+                    while not (len(buf) >= 4 and len(buf) - 4 >= struct.unpack("!L", buf[:4])[0]):
+                        m = conn.recv(1 << 16)
+                        if not m:
+                            break
+                        buf += m
+                    got_requests.append(buf)
+                    for c in item:
+                        if c:               # a zero-length write puts nothing on the wire (Model.feed)
+                            conn.sendall(c)
+                            time.sleep(0.0003)
+                except OSError as e:
+                    peer_errors.append(repr(e) + f" after request {buf[:30]!r} chunks {[len(c) for c in item][:8]}")
+                finally:
+                    conn.close()
+        th = threading.Thread(target=peer, daemon=True)
+        th.start()
+        final1 = {"out": "a.py:1: error: boom  [misc]\nFound 1 error in 1 file (checked 1 source file)\n", "err": "", "status": 1, "final": True}
+        final2 = {"out": "", "err": "", "status": 0, "final": True, "platform": "linux"}
+        replysets: list[list[dict[str, Any]]] = [
+            [final1],
+            [{"stdout": "debug line 1\n"}, {"stderr": "warning: w\n"}, {"stdout": "é✓ done\n"}, final2],
+        ]
+        cases: list[tuple[list[dict[str, Any]], list[bytes], bool]] = []
+        for rs in replysets:
+            stream = b"".join(frame(json.dumps(r).encode()) for r in rs)
+            n = len(stream)
+            cases.append((rs, [stream], True))
+            cases.append((rs, [stream[i:i + 1] for i in range(n)], True))
+            for k in range(1, n):
+                cases.append((rs, [stream[:k], stream[k:]], True))
+            for _ in range(ctx.n(30, 300)):
+                cuts = sorted(rng.sample(range(1, n), rng.randint(2, 6)))
+                cases.append((rs, [stream[a:b] for a, b in zip([0] + cuts, cuts + [n])] + ([b""] if rng.random() < 0.3 else []), True))
+            for k in sorted({0, 1, 3, 4, 5, n // 2, n - 1}):
+                cases.append((rs, [stream[:k]], False))     # peer dies in the middle of its reply
+        lines, bad = [], 0
+        for rs, chunks, complete in cases:
+            q.put(chunks)
+            out, err = io.StringIO(), io.StringIO()
+            with contextlib.redirect_stdout(out), contextlib.redirect_stderr(err):
+                resp = request(status_file, "status", timeout=20, fswatcher_dump_file=None)
+            want_out = "".join(r.get("stdout", "") for r in rs)
+            want_err = "".join(r.get("stderr", "") for r in rs)
+            want = {k: v for k, v in rs[-1].items() if k not in ("final", "stdout", "stderr")}
+            if complete:
+                ok = resp == want and out.getvalue() == want_out and err.getvalue() == want_err
+            else:
+                ok = set(resp) == {"error"}     # a truncated reply is reported as an error, never as a (partial) result
+            if not ok and bad < 3:
+                bad += 1
+                ctx.violation("client-framing:" + "|".join(str(len(c)) for c in chunks)[:100],
+                              f"dmypy client request(): reply stream cut as {[len(c) for c in chunks][:20]} gave {str(resp)[:150]!r} "
+                              f"stdout {out.getvalue()[:60]!r}, sent {str(want)[:150]!r}",
+                              {"kind": "client", "chunks": [c.hex() for c in chunks], "resp": str(resp)})
+            lines.append(f"f {len(rs)} " + " ".join(hx(c) for c in chunks))
+        q.put(None)
+        th.join(timeout=10)
+        ls.close()
+        if peer_errors:
+            ctx.broke("C", "client stage glue (scripted peer)", "; ".join(peer_errors[:3]))
+        # the request frames the client wrote: exactly one intact frame each, carrying the arguments
+        for buf in got_requests:
+            okr = len(buf) >= 4 and struct.unpack("!L", buf[:4])[0] == len(buf) - 4
+            if okr:
+                try:
+                    a = json.loads(buf[4:])
+                    okr = a.get("command") == "status" and "is_tty" in a and "terminal_width" in a
+                except ValueError:
+                    okr = False
+            if not okr:
+                ctx.violation("client-request-frame", f"dmypy client wrote a malformed request frame: {buf[:80]!r}", {"kind": "client", "frame": buf.hex()})
+                break
+        if exe:
+            p = subprocess.run([exe], input="\n".join(lines) + "\n", text=True, capture_output=True, timeout=600)
+            model = [l.strip() for l in p.stdout.splitlines()]
+            if len(model) != len(lines):
+                ctx.broke("C", "client driver", f"{len(model)} results for {len(lines)} inputs")
+            else:
+                nb = 0
+                for (rs, chunks, complete), m in zip(cases, model):
+                    exp = " ".join(hx(json.dumps(r).encode()) for r in rs) if complete else "NONE"
+                    if m != exp:
+                        nb += 1
+                        if nb <= 3:
+                            ctx.broke("C", "read_until_final model vs reply stream", f"cut {[len(c) for c in chunks][:20]}: model {m[:120]} expected {exp[:120]}")
+                ctx.add("traces_validated_against_impl", len(lines))
+            if got_requests:
+                p = subprocess.run([exe], input="e " + hx(got_requests[0][4:]) + "\n", text=True, capture_output=True, timeout=60)
+                if p.stdout.strip() != got_requests[0].hex():
+                    ctx.broke("C", "encode_frame vs client request frame", f"model {p.stdout[:60]} client {got_requests[0].hex()[:60]}")
+        ctx.add("evaluations", len(cases))
+        ctx.cov["client_exchanges"] = len(cases)
+        ctx.sample({"client_reply_cut": [len(c) for c in cases[len(cases) // 2][1]], "frames": len(cases[len(cases) // 2][0])})
+        ctx.log(f"(a') dmypy client request(): {len(cases)} exchanges with segmented reply streams (incl. stdout/stderr frames, truncated replies)")
+    finally:
+        shutil.rmtree(d, ignore_errors=True)
+
+
 # =========================================================================================== serve loop
 
 V1 = "x: int = 'a'\n"
@@ -443,7 +577,7 @@ class Daemon:
         self.name = ""
         self.wedged = False
 
-    def start(self) -> None:
+    def start(self, extra: "list[str] | None" = None) -> None:
         if self.fs is not None:
             self.fs.spawn({"dir": self.dir, "status_file": self.status_file, "cache": os.path.join(self.dir, "cache"),
                            "log": os.path.join(self.dir, "log")})
@@ -452,7 +586,7 @@ class Daemon:
         env = vlib.py_env()
         env.pop("MYPY_CACHE_DIR", None)
         st, out = vlib.sh([vlib.PY, "-m", "mypy.dmypy", "--status-file", self.status_file, "start", "--log-file",
-                           os.path.join(self.dir, "log"), "--", "--cache-dir", os.path.join(self.dir, "cache")],
+                           os.path.join(self.dir, "log")] + (extra or []) + ["--", "--cache-dir", os.path.join(self.dir, "cache")],
                           cwd=self.dir, env=env, timeout=180)
         if st != 0 and "Timed out waiting" not in out:
             raise RuntimeError("dmypy start failed: " + out[-500:])
@@ -739,6 +873,22 @@ def serve_stage(ctx: vlib.Ctx, shape_flags: dict[str, bool] | None) -> None:
                           {"kind": "serve", "scenario": name, "steps": [s.name for s in steps], "replies": res["replies"], "log": res["log"][-800:]})
         if res["serving"] and stopped:
             ctx.violation(f"F3:alive-after-stop:{name}", f"scenario {name}: daemon still serving after stop", {"kind": "serve", "scenario": name})
+    # the idle exit (`dmypy start --timeout N`: accept times out, IPCException leaves the loop through `finally`)
+    # must also remove the status file.  Only waits, never asserts on elapsed time.
+    d = Daemon(None)
+    try:
+        d.start(extra=["--timeout", "5"])
+        if d.wait_dead(120):
+            ctx.cov["idle_timeout_exit"] = "daemon exited after idling; status file " + ("REMAINS" if os.path.exists(d.status_file) else "removed")
+            if os.path.exists(d.status_file):
+                ctx.violation("F3:status-file-remains:idle-timeout", "the daemon exited on its idle timeout but its status file is still there",
+                              {"kind": "serve-timeout"})
+        else:
+            ctx.cov["idle_timeout_exit"] = "daemon still alive 120 s after --timeout 5 (not judged)"
+    except Exception as e:  # noqa
+        ctx.cov["idle_timeout_exit"] = "not run: " + repr(e)[:200]
+    finally:
+        d.cleanup()
     ctx.add("evaluations", len(scenarios))
     ctx.cov["serve_scenarios"] = len(scenarios)
     ctx.cov["serve_faults_injected"] = injected
@@ -790,6 +940,10 @@ def run(ctx: vlib.Ctx) -> None:
     if exe is None:
         ctx.broke("C", "extraction", "extracted model does not build")
     framing_stage(ctx, exe)
+    try:
+        client_stage(ctx, exe)
+    except Exception as e:  # noqa
+        ctx.broke("C", "client stage glue", repr(e))
     if shape_flags is not None:
         repaired = all(shape_flags.values())
         ctx.cov["serve_loop_verdict"] = ("daemon_survives / failed_request_preserves_state / later_requests_unaffected / status_file_removed_on_exit "
